@@ -26,7 +26,7 @@ TRUSTED_BASE = [
     'OCaml 4.13.1 compiler; /verif/ocaml/driver.ml (exchange format, printers)',
     'Python harness: generators, exchange encoding, obs projections, oracles (harness/)',
     'CPython 3.12 xml.etree.ElementTree / expat as the parser both sides start from; copy.deepcopy, list, dict, warnings, float(), int() beyond ASCII digits, dateutil',
-    'The model is hand-written: only behaviour on the explored inputs ties it to /repo',
+    'The model is hand-written: behaviour on the explored inputs ties it to /repo; in addition harness/gentables.py translates the classification tables, base_tag_name of every class, the exception hierarchy and the except clause of MosCollection.merge from the current source into work/GenTables.v, where they are proved equal to the model\'s tables (C08, C09) - that translator (python ast, ~130 lines, fail-closed) is trusted',
 ]
 
 
